@@ -160,11 +160,17 @@ class TaskPrecedence(TaskConstraint):
         else:  # kind == 'tight':
             scheduled_assertion = lower == upper
 
-        if self.task_before.optional or self.task_after.optional:
+        # a task group has no scheduled flag (its optional members are guarded by the group)
+        optional_tasks = [
+            task
+            for task in (self.task_before, self.task_after)
+            if not isinstance(task, TaskGroup) and task.optional
+        ]
+        if optional_tasks:
             # both tasks must be scheduled so that the precedence constraint applies
             self.set_z3_assertions(
                 z3.Implies(
-                    z3.And(self.task_before._scheduled, self.task_after._scheduled),
+                    z3.And([task._scheduled for task in optional_tasks]),
                     scheduled_assertion,
                 )
             )
